@@ -59,8 +59,10 @@ def check_jump_fix(repo, rep):
         n += 1
         samples = embeddings(rank, 2)
         for s in samples:
-            s.update({"ts": Fraction(60000), "v": Fraction(3), "pts": Fraction(0), "po": Fraction(1),
-                      "ph": Fraction(1), "pl": Fraction(1), "pv": Fraction(1)})
+            # the other fields of the previous candle: a valid candle around its close, with values that coincide with nothing
+            # else (a normalisation that reads the previous LOW / HIGH / OPEN instead of the close must show)
+            s.update({"ts": Fraction(60000), "v": Fraction(3), "pts": Fraction(0), "po": s["pc"] + Fraction(1, 7),
+                      "ph": s["pc"] + Fraction(11, 3), "pl": s["pc"] - Fraction(7, 3), "pv": Fraction(5, 13)})
         desc = describe(rank)
 
         def mk(dec):
